@@ -71,7 +71,12 @@ impl Distribution<f64> for Exp1 {
         }
         #[inline]
         fn zero_case<R: Rng + ?Sized>(rng: &mut R, _u: f64) -> f64 {
-            ziggurat_tables::ZIG_EXP_R - rng.random::<f64>().ln()
+            // `random::<f64>()` may be exactly 0, which would give +inf: draw again
+            let mut x = rng.random::<f64>();
+            while x == 0.0 {
+                x = rng.random::<f64>();
+            }
+            ziggurat_tables::ZIG_EXP_R - x.ln()
         }
 
         ziggurat(
